@@ -74,6 +74,9 @@ func corpus(o *hc.Out, dir string) {
 		{"F27.jsonl.trailing_backslash", tbl(ab, []cell{cS("a\\"), cI(2)}), with(option.JSONL, strip), true},
 		{"F27.json.empty_table_header", tbl(ab), with(option.JSON, strip), true},
 		{"F27.jsonl.empty_table_header", tbl(ab), with(option.JSONL, strip), true},
+		{"new.ltsv.duplicate_label", tbl([]string{"a", "a"}, []cell{cI(1), cI(2)}), with(option.LTSV, strip), false},
+		{"new.json.duplicate_label", tbl([]string{"a", "a"}, []cell{cI(1), cI(2)}), with(option.JSON, strip), false},
+		{"new.jsonl.duplicate_label", tbl([]string{"a", "a"}, []cell{cI(1), cI(2)}), with(option.JSONL, strip), false},
 		{"F16c.csv.partial_output", tbl(ab, []cell{cS("abc"), cS("é")}), with(option.CSV, sjis), true},
 		{"F16c.tsv.partial_output", tbl(ab, []cell{cS("abc"), cS("é")}), with(option.TSV, sjis), true},
 		{"F16c.ltsv.partial_output", tbl(ab, []cell{cS("abc"), cS("é")}), with(option.LTSV, sjis), true},
